@@ -47,13 +47,15 @@ StepLine(e) ==
   /\ font.set
   /\ RCanonical(e.map) = TRUE          \* structure (forced to plain evaluation)
   /\ LET sty == [tc |-> e.tc, bg |-> e.bg, ulm |-> e.ul[1], ulc |-> e.ul[2], stm |-> e.st[1], stc |-> e.st[2]]
-         ln  == [chars |-> e.chars, pos |-> e.pos, sty |-> sty, map |-> e.map]
+         \* Text::lines() (api 0) takes ONE trailing CR of a line as part of its line ending; draw_string (api 1) does not
+         eff == IF e.api = 0 /\ Len(e.chars) > 0 /\ e.chars[Len(e.chars)] = 13 THEN SubSeq(e.chars, 1, Len(e.chars) - 1) ELSE e.chars
+         ln  == [chars |-> eff, pos |-> e.pos, sty |-> sty, map |-> e.map]
          small == ~font.wf \/ Len(e.chars) * font.cw * font.ch <= 160
      IN /\ Report(e.case, LineFails(font, ln), LineDetail(font, ln))
         /\ IF small
-           THEN LET t == DrawStringT(font, sty, e.chars, e.pos, 0, EmptyPic) IN
+           THEN LET t == DrawStringT(font, sty, eff, e.pos, 0, EmptyPic) IN
                 IF RasterOfPic(t.pic) # e.map \/ t.ret # e.ret
-                THEN Drift(e.case, "draw_string", [font |-> font.name, chars |-> e.chars, sty |-> sty,
+                THEN Drift(e.case, "draw_string", [font |-> font.name, chars |-> eff, sty |-> sty,
                                                   ret |-> e.ret, model_ret |-> t.ret])
                 ELSE TRUE
            ELSE TRUE
